@@ -32,7 +32,36 @@ var labelNames = []string{"-", "pos", "neg", "agg", "tpos", "tneg", "pos+neg", "
 
 var c03Names = []string{"a", "b", "c", "d"}
 
-func c03Sym(i int) ast.PredicateSym { return ast.PredicateSym{Symbol: c03Names[i], Arity: 1} }
+// c03Arity: arities of the IDB predicates. The default scheme gives every predicate its own name and arity 1; the
+// overloaded scheme (c03Overloaded) gives all of them one name and tells them apart by arity only.
+var c03Arity = []int{1, 1, 1, 1}
+
+func c03Sym(i int) ast.PredicateSym { return ast.PredicateSym{Symbol: c03Names[i], Arity: c03Arity[i]} }
+
+// c03Label names predicate i in reports (with its arity when names are shared).
+func c03Label(i int) string {
+	if c03Arity[i] != 1 || c03Names[0] == c03Names[1] {
+		return fmt.Sprintf("%s/%d", c03Names[i], c03Arity[i])
+	}
+	return c03Names[i]
+}
+
+// c03Args repeats t as often as predicate i has arguments.
+func c03Args(i int, t ast.BaseTerm) []ast.BaseTerm {
+	out := make([]ast.BaseTerm, c03Arity[i])
+	for k := range out {
+		out[k] = t
+	}
+	return out
+}
+
+// c03Overloaded runs f with the predicates named p/1, p/2, p/3, p/4.
+func c03Overloaded(f func()) {
+	n, a := c03Names, c03Arity
+	c03Names, c03Arity = []string{"p", "p", "p", "p"}, []int{1, 2, 3, 4}
+	defer func() { c03Names, c03Arity = n, a }()
+	f()
+}
 
 // c03Program builds analysis.Program for the labelled graph g (n x n, row = head).
 func c03Program(n int, g []int) analysis.Program {
@@ -47,7 +76,7 @@ func c03Program(n int, g []int) analysis.Program {
 		prog.IdbPredicates[c03Sym(u)] = struct{}{}
 		body := []ast.Term{ast.Atom{Predicate: e, Args: []ast.BaseTerm{v}}}
 		for w := 0; w < n; w++ {
-			at := ast.Atom{Predicate: c03Sym(w), Args: []ast.BaseTerm{v}}
+			at := ast.Atom{Predicate: c03Sym(w), Args: c03Args(w, v)}
 			switch g[u*n+w] {
 			case lPos:
 				body = append(body, at)
@@ -71,10 +100,10 @@ func c03Program(n int, g []int) analysis.Program {
 					{Var: nil, Fn: ast.ApplyFn{Function: ast.FunctionSym{Symbol: "fn:group_by", Arity: 0}}},
 					{Var: &c, Fn: ast.ApplyFn{Function: ast.FunctionSym{Symbol: "fn:count", Arity: 0}}},
 				}}
-				prog.Rules = append(prog.Rules, ast.Clause{Head: ast.Atom{Predicate: c03Sym(u), Args: []ast.BaseTerm{c}}, Premises: []ast.Term{at}, Transform: tr})
+				prog.Rules = append(prog.Rules, ast.Clause{Head: ast.Atom{Predicate: c03Sym(u), Args: c03Args(u, c)}, Premises: []ast.Term{at}, Transform: tr})
 			}
 		}
-		prog.Rules = append(prog.Rules, ast.Clause{Head: ast.Atom{Predicate: c03Sym(u), Args: []ast.BaseTerm{v}}, Premises: body})
+		prog.Rules = append(prog.Rules, ast.Clause{Head: ast.Atom{Predicate: c03Sym(u), Args: c03Args(u, v)}, Premises: body})
 	}
 	return prog
 }
@@ -131,7 +160,7 @@ func graphString(n int, g []int) string {
 	for u := 0; u < n; u++ {
 		for w := 0; w < n; w++ {
 			if g[u*n+w] != lAbsent {
-				parts = append(parts, fmt.Sprintf("%s-%s->%s", c03Names[u], labelNames[g[u*n+w]], c03Names[w]))
+				parts = append(parts, fmt.Sprintf("%s-%s->%s", c03Label(u), labelNames[g[u*n+w]], c03Label(w)))
 			}
 		}
 	}
@@ -224,13 +253,13 @@ func c03Check(n int, g []int, strata []analysis.Nodeset, p2s map[ast.PredicateSy
 				kindSuffix = "-temporal"
 			}
 			if layer[w] > layer[u] {
-				return "body-after-head" + kindSuffix, fmt.Sprintf("%s is mentioned (%s) in a rule for %s but lies in a later layer (%d > %d)", c03Names[w], labelNames[l], c03Names[u], layer[w], layer[u])
+				return "body-after-head" + kindSuffix, fmt.Sprintf("%s is mentioned (%s) in a rule for %s but lies in a later layer (%d > %d)", c03Label(w), labelNames[l], c03Label(u), layer[w], layer[u])
 			}
 			if strict && layer[w] >= layer[u] {
-				return "negated-not-strictly-earlier" + kindSuffix, fmt.Sprintf("%s is mentioned (%s) by %s but is not in a strictly earlier layer", c03Names[w], labelNames[l], c03Names[u])
+				return "negated-not-strictly-earlier" + kindSuffix, fmt.Sprintf("%s is mentioned (%s) by %s but is not in a strictly earlier layer", c03Label(w), labelNames[l], c03Label(u))
 			}
 			if reach[u][w] && reach[w][u] && layer[u] != layer[w] {
-				return "scc-split", fmt.Sprintf("%s and %s are mutually recursive but in different layers", c03Names[u], c03Names[w])
+				return "scc-split", fmt.Sprintf("%s and %s are mutually recursive but in different layers", c03Label(u), c03Label(w))
 			}
 		}
 	}
@@ -295,8 +324,30 @@ func c03(r *rt.Run) {
 			}
 		})
 	}
+	// the same graphs with predicates that share one name and differ in arity only (p/1, p/2, p/3): what identifies a
+	// predicate is name and arity together
+	c03Overloaded(func() {
+		sp := spaces[0]
+		total := 1
+		for i := 0; i < sp.n*sp.n; i++ {
+			total *= len(sp.alphabet)
+		}
+		chunks := 4096
+		rt.ForRange(chunks, func(ci int) {
+			if r.Expired("C03 graph enumeration (overloaded names)") {
+				return
+			}
+			for code := ci; code < total; code += chunks {
+				g := decodeGraph(code, sp.n, len(sp.alphabet), sp.alphabet)
+				if !canonicalGraph(sp.n, g) {
+					continue
+				}
+				c03One(r, sp.n, g, false)
+			}
+		})
+	})
 	c03MapOrder(r)
-	r.Finish("every labelled dependency graph over 3 IDB predicates (labels absent/pos/neg/agg/temporal-pos/pos+neg[/temporal-neg/neg+pos]; a space with aggregation over a temporally annotated mention) and over 4 (reduced labels), up to renaming of predicates (only the lexicographically least relabelling is run), as analysis.Program and (a 1/61 slice of n=3) as source text through parse+Analyze; plus the map-iteration-order exploration of Stratify on all labelled 3-predicate graphs (see map_order_exploration); " +
+	r.Finish("the first space again with predicates that share one name and differ in arity only (p/1, p/2, p/3); every labelled dependency graph over 3 IDB predicates (labels absent/pos/neg/agg/temporal-pos/pos+neg[/temporal-neg/neg+pos]; a space with aggregation over a temporally annotated mention) and over 4 (reduced labels), up to renaming of predicates (only the lexicographically least relabelling is run), as analysis.Program and (a 1/61 slice of n=3) as source text through parse+Analyze; plus the map-iteration-order exploration of Stratify on all labelled 3-predicate graphs (see map_order_exploration); " +
 		"non-trivial = graph has a cycle or a negative/aggregating/temporal edge; distinct by construction")
 }
 
